@@ -51,10 +51,10 @@ def _check_main(run, P):
              "text, only directive lines have their '#' moved; Python: every emitted line "
              "is wrapped at the combined level", minimum=3)
     f = P.func(f"{UTILS}.wrap_line_base")
-    _lexer(run, P, f)
-    _once_fit_pad(run, P, f)
-    _pads(run, P)
-    _use(run, P)
+    run.do(_lexer, run, P, f)
+    run.do(_once_fit_pad, run, P, f)
+    run.do(_pads, run, P)
+    run.do(_use, run, P)
 
 
 def _lexer(run, P, f: Func):
